@@ -17,6 +17,9 @@ func targetFor(data []byte, mode string) float64 {
 	if mode == "slow" { // 8 trailing zeros: some hundred batches
 		return math.Pow(3, 8) / ln
 	}
+	if mode == "tiny" { // 3 trailing zeros
+		return math.Pow(3, 3) / ln
+	}
 	if mode == "slower" {
 		return math.Pow(3, 10) / ln
 	}
